@@ -25,6 +25,14 @@ CHECKS.update({
         ref="5/C11"),
 })
 
+CHECKS.update({
+    "C08": dict(
+        technique="TLA+ spec of the request plane (spec/ip/IpReq.tla) model-checked by TLC (safety exhaustively, NoHang as liveness under fairness); recorded executions of the real SecureHomeKitConnection on a virtual-time loop validated against IpReq_Trace (timed)",
+        text="TLC checks OwnResponse, EventsInOrder, NoWriteAfterFault, NoStaleCompletion, SemConsistent, NoOrphan on every interleaving of {issue, response whole / in two pieces, EVENT, unsolicited response, FIN, reset, 30 s timer, caller cancel, reconnect} for 2-3 callers and 2 sockets, and NoHang under weak fairness. Seeded random stimulus sequences (with partial settling of the loop so that stimuli land between callbacks) drive the real connection; every recorded trace must be a behaviour of the timed spec: each API outcome, the request a delivered body was written for, listener calls, and completion exactly at the loss or at write time + 30 s.",
+        note="Trusted: TLC, harness/vloop.py, harness/simnet.py, harness/refacc. Assumptions listed in the evidence (write to a peer-closed socket may fail at once; unsolicited response only while nothing is outstanding).",
+        ref="5/C08"),
+})
+
 NOT_APPLICABLE = {
     "C02": "Byte-for-byte numeric equality of SRP-6a over a 3072-bit group with SHA-512: no state, schedule or history to model, TLC integers are 32-bit; a TLA+ transcription over a toy group would say nothing about the hard-coded constants. See DESIGN.md section 5/C02.",
 }
